@@ -77,6 +77,20 @@ def unit_effect_keys(u):
     return keys_path, keys_method
 
 
+_SPEC_FNS = None
+
+
+def spec_lib_fn_names():
+    """N1: names of the spec library's functions (glob-imported into every extracted module): a
+    function of the CODE with one of these names would shadow it inside the contracts"""
+    global _SPEC_FNS
+    if _SPEC_FNS is None:
+        _SPEC_FNS = set()
+        for f in glob.glob(os.path.join(VERIF, 'spec', '*.rs')):
+            _SPEC_FNS |= set(re.findall(r'\bfn\s+(\w+)', open(f).read()))
+    return _SPEC_FNS
+
+
 def build_extractor_config(flavour, cfg, files, units, bare=(), demoted=()):
     fl = FLAVOURS[flavour]
     eff_path = dict(cfg['effects_path'])
@@ -108,7 +122,7 @@ def build_extractor_config(flavour, cfg, files, units, bare=(), demoted=()):
             continue
         fcfg[fname] = {'keep_items': sorted(set(f['keep'])), 'units': [], 'drop_uses': f['drop_use'],
                        'item_extra': f['item_extra'], 'lifts': f.get('lifts', []),
-                       'extra_fn_names': sorted(set(re.findall(r'\bfn\s+(\w+)', '\n'.join(f['extra']))))}
+                       'extra_fn_names': sorted(set(re.findall(r'\bfn\s+(\w+)', '\n'.join(f['extra']))) | spec_lib_fn_names())}
     locals_base = {}
     lp = os.path.join(VERIF, 'contracts', 'locals.json')
     if os.path.exists(lp):
@@ -118,6 +132,7 @@ def build_extractor_config(flavour, cfg, files, units, bare=(), demoted=()):
             raise Undecided(f"unit {u['id']}: file {u['file']} has no `file` entry in the overlay")
         fcfg[u['file']]['units'].append({
             'locals': locals_base.get(u['id'], []),
+            'sig_base': (locals_base.get('sig:' + u['id']) or [''])[0],
             'id': u['id'], 'at': u['at'], 'world': u['world'], 'ret': u['ret'],
             'sig_contract': sig_contract_text(u), 'attrs': u['attrs'],
             'loops': u['loops'], 'closures': u['closures'], 'hints': u['hints'],
@@ -312,7 +327,8 @@ def run_extractor(flavour, cfg, files, units, bare=(), opaque=(), vacuity=False,
     ecfg, active = build_extractor_config(flavour, cfg, files, units, bare, demoted)
     ecfg['opaque_auto'] = list(opaque)
     ecfg['vacuity_probe'] = bool(vacuity)
-    ecfg['no_inline'] = bool(no_inline)
+    ecfg['no_inline'] = no_inline is True
+    ecfg['no_inline_ids'] = [] if isinstance(no_inline, bool) else sorted(no_inline)
     tag = flavour + ('_vac' if vacuity else '')
     cpath = os.path.join(BUILD, f'extract_{tag}.cfg.json')
     opath = os.path.join(BUILD, f'extract_{tag}.out.json')
@@ -350,6 +366,8 @@ def run_extractor(flavour, cfg, files, units, bare=(), opaque=(), vacuity=False,
             ecfg['effects_method'][k] = v
             ecfg.setdefault('effects_method_derived', []).append(k)
         ecfg['_second_pass'] = True
+        # T1: calls that resolve to one of these keys go to a function without a contract
+        ecfg['auto_keys'] = sorted(set(extra.get('p', {})) | set(extra.get('m', {})))
         json.dump(ecfg, open(cpath, 'w'), indent=1)
         os.remove(opath)
         p = subprocess.run([EXTRACTOR, cpath, opath], capture_output=True, text=True)
@@ -602,6 +620,24 @@ def error_in_contract_text(res, meta, gen_name):
             for o in meta['obls'] + meta['pres']:
                 if o['start'] <= ln <= (o['end'] or o['start']):
                     return True
+            # an unlabelled clause: anywhere between the signature and the line that opens the body
+            try:
+                tl = open(os.path.join(BUILD, gen_name)).read().split('\n')
+            except OSError:
+                return False
+            best = None
+            for u in meta['units']:
+                if u['start'] <= ln <= (u['end'] or 10**9) and (best is None or u['start'] >= best['start']):
+                    best = u
+            if best is not None:
+                seen_contract = False
+                for i in range(best['start'], ln):
+                    t = tl[i].strip()      # tl[i] is line i+1
+                    if t in ('requires', 'ensures') or t.startswith('requires ') or t.startswith('ensures '):
+                        seen_contract = True
+                    if t.startswith('{'):
+                        return False
+                return seen_contract
         return False
     return False
 
@@ -617,18 +653,44 @@ def full_run(flavour, cfg, files, units, rlimit=40, seed=0):
     opaque = set()
     demoted = set()
     inline_off = False
+    noinl, noinl_added = set(), {}
     annotated = {u['id'] for u in units if u['closures'] or u['loops'] or u['hints'] or u['strslice'] or u['body_open']}
     unit_ids = {u['id'] for u in units}
     for _ in range(12):
-        ext, active = run_extractor(flavour, cfg, files, units, bare=tuple(bare), opaque=tuple(sorted(opaque)), demoted=tuple(sorted(demoted)), no_inline=inline_off)
+        ext, active = run_extractor(flavour, cfg, files, units, bare=tuple(bare), opaque=tuple(sorted(opaque)), demoted=tuple(sorted(demoted)), no_inline=(True if inline_off else sorted(noinl)))
         text, meta, gen, res, weak = verify_with_auto_weak(flavour, cfg, files, active, ext, rlimit, seed)
         hid = region_of_hard_error(res, meta, os.path.basename(gen))
+        if os.environ.get('VERIF_TRACE'):
+            errs = [(d.get('rendered') or d.get('message') or '')[:1200] for d in res['diags'] if d.get('level') == 'error'][:3]
+            sys.stderr.write(f'TRACE stage bare={sorted(bare)} opaque={sorted(opaque)} demoted={sorted(demoted)} inline_off={inline_off} hid={hid} rc={res["rc"]}\n' + ('\n'.join(errs) if hid or res['json'] is None or (res['json'] or {}).get('verification-results', {}).get('encountered-vir-error') else '') + '\n')
         if hid is not None and (hid.startswith('auto:') or hid.startswith('item:')) and hid not in opaque:
             opaque.add(hid)
             continue
         uid = unit_of_rustc_error(res, meta, os.path.basename(gen))
+        if uid is None and hid is not None and not inline_off and hid not in noinl_added:
+            # Verus (not rustc) rejects a construct inside a listed unit: it may sit in text that
+            # rule I1 wrote out there - once more with the helpers of that file called instead
+            ufile = next((u['file'] for u in units if u['id'] == hid or hid.startswith(u['id'] + '::')), None)
+            helpers = set(ext['files'].get(ufile, {}).get('inlined_helpers', [])) - noinl if ufile else set()
+            noinl_added[hid] = helpers
+            if helpers:
+                noinl |= helpers
+                continue
         if uid is None:
             break
+        # (b0) what does not compile may be the text of a helper that rule I1 wrote out inside this
+        # unit: first once more with the helpers of that file called, not written out (the error
+        # then sits in the helper itself and (c) applies); undone if it does not help
+        if not inline_off and not uid.startswith('auto:') and uid not in noinl_added:
+            ufile = next((u['file'] for u in units if u['id'] == uid or uid.startswith(u['id'] + '::')), None)
+            helpers = set(ext['files'].get(ufile, {}).get('inlined_helpers', [])) - noinl if ufile else set()
+            noinl_added[uid] = helpers
+            if helpers:
+                noinl |= helpers
+                continue
+        elif noinl_added.get(uid):
+            noinl -= noinl_added[uid]
+            noinl_added[uid] = set()
         # the error may sit in a nested inner fn: try the unit itself, then its outer unit
         cand = [uid] + [u for u in annotated if uid.startswith(u + '::')]
         cand = [c for c in cand if c in annotated and c not in bare]
@@ -650,7 +712,7 @@ def full_run(flavour, cfg, files, units, rlimit=40, seed=0):
             continue
         break
     ext['demoted_units'] = sorted(demoted)
-    ext['inline_off'] = inline_off
+    ext['inline_off'] = True if inline_off else sorted(noinl)
     ext['opaque_auto'] = sorted(opaque)
     return ext, active, text, meta, gen, res, weak, sorted(bare)
 
